@@ -6,7 +6,8 @@
 From Coq Require Import Reals.
 From Flocq Require Import Core IEEE754.Binary IEEE754.Bits.
 From QV Require Import Rt.Prelude Rt.Amount Rt.Quantity Gen.Prefixes Gen.Kernels Amount.F64 Amount.F64Acc
-  Proofs.Laws Proofs.Kernel Proofs.C09 Proofs.Derived Proofs.C14 Proofs.AccF64 Proofs.AccExamples.
+  Proofs.Laws Proofs.Kernel Proofs.C09 Proofs.Derived Proofs.C14 Proofs.AccF64 Proofs.AccExamples Proofs.AccCatalogue.
+From QV Require Import Macro.Defs Gen.Catalogue Macro.Inst.
 Local Open Scope R_scope.
 
 (** one rounded operation = one factor (1 + d) *)
@@ -44,6 +45,26 @@ Theorem ACC_C01_not_vacuous :
   normal (B2R 53 1024 (u_scale LengthF (q_unit LengthF q_example)) / B2R 53 1024 (u_scale LengthF cm_ix)) /\
   normal (B2R 53 1024 (f64_div (u_scale LengthF (q_unit LengthF q_example)) (u_scale LengthF cm_ix)) * B2R 53 1024 (q_amount LengthF q_example)).
 Proof. exact convert_magnitude_premises_hold. Qed.
+
+(** ... and for EVERY predefined quantity with a reference unit (both crates) and every ordered pair of its
+    units the premises about the scales hold (computed on the exact rational values of the doubles),
+    so the bound needs premises on the amount only *)
+Theorem ACC_C01_catalogue_scales : forall (e : cat_entry SIPrefix) (u v : nat),
+  In e (catalogue_main ++ catalogue_astro) -> gd_path (ce_gen e) = PRef ->
+  In u (gen_iter (ce_gen e)) -> In v (gen_iter (ce_gen e)) ->
+  let su := gen_scale F64 (ce_gen e) u in let sv := gen_scale F64 (ce_gen e) v in
+  is_finite 53 1024 su = true /\ is_finite 53 1024 sv = true /\ B2R 53 1024 sv <> 0 /\ normal (B2R 53 1024 su / B2R 53 1024 sv).
+Proof. exact catalogue_scales. Qed.
+
+Theorem ACC_C01_catalogue_convert : forall (e : cat_entry SIPrefix),
+  In e (catalogue_main ++ catalogue_astro) -> gd_path (ce_gen e) = PRef ->
+  let S := base_of_gen F64 (ce_gen e) in
+  forall (q : Qt S) (v : nat), q_unit S q <> v -> In v (u_iter S) -> In (q_unit S q) (u_iter S) ->
+  is_finite 53 1024 (q_amount S q) = true ->
+  normal (B2R 53 1024 (f64_div (u_scale S (q_unit S q)) (u_scale S v)) * B2R 53 1024 (q_amount S q)) ->
+  exists q', HasRefUnit_convert S q v = Ok q' /\ q_unit S q' = v /\
+    Rabs (B2R 53 1024 (q_amount S q') * B2R 53 1024 (u_scale S v) - magnitude S q) <= ((1 + u64) ^ 2 - 1) * Rabs (magnitude S q).
+Proof. exact catalogue_convert_bound. Qed.
 
 (** C02: cross-unit comparison never contradicts the exact order of the magnitudes *)
 Theorem ACC_C02_order : forall (S : QBase F64) (x y : Qt S),
@@ -160,6 +181,8 @@ Proof. exact affine_magnitude. Qed.
 Print Assumptions ACC_operations.
 Print Assumptions ACC_C01_convert.
 Print Assumptions ACC_C01_not_vacuous.
+Print Assumptions ACC_C01_catalogue_scales.
+Print Assumptions ACC_C01_catalogue_convert.
 Print Assumptions ACC_C02_order.
 Print Assumptions ACC_C02_separated.
 Print Assumptions ACC_C03_add.
